@@ -99,28 +99,48 @@ Proof. intros U ops h g q lo Hf Hw Hg. exact (lookup_eq_spec_reachable U ops h g
 Print Assumptions C09_pipeline.
 
 (* ---- paging ------------------------------------------------------------------------------------------------------- *)
-(* the counters of the checker implement the declarative page for ALL integer values of MaxElements and Offset *)
+(* the counters of the checker implement the declarative page for ALL integer values of MaxElements and Offset; the
+   number of skipped elements is MaxElements * Offset computed in Go's 64-bit int (wrap64 is the identity below 2^63) *)
 Theorem C09_page_characterised : forall (A : Type) lo (l : list A),
   page lo l =
-  if (lo_max lo >? 0)%Z then firstn (Z.to_nat (lo_max lo)) (skipn (Z.to_nat (lo_max lo * lo_offset lo)) l)
-  else skipn (Z.to_nat (lo_max lo * lo_offset lo)) l.
+  if (lo_max lo >? 0)%Z then firstn (Z.to_nat (lo_max lo)) (skipn (Z.to_nat (wrap64 (lo_max lo * lo_offset lo))) l)
+  else skipn (Z.to_nat (wrap64 (lo_max lo * lo_offset lo))) l.
 Proof. exact page_is_spec_page. Qed.
 Print Assumptions C09_page_characterised.
 
-(* page size n > 0, offset k: the k-th block of n elements of the unpaged result *)
-Theorem C09_page_block : forall q lo g l (n : Z) (k : nat), (0 < n)%Z ->
+Theorem C09_wrap64_identity : forall z, (-9223372036854775808 <= z < 9223372036854775808)%Z -> wrap64 z = z.
+Proof. exact wrap64_small. Qed.
+Print Assumptions C09_wrap64_identity.
+
+(* page size n > 0, offset k: the k-th block of n elements of the unpaged result.
+   Domain D: n * k < 2^63 (the product does not overflow Go's int); outside D the statement is FALSE, see below *)
+Theorem C09_page_block_partial : forall q lo g l (n : Z) (k : nat), (0 < n)%Z ->
+  (n * Z.of_nat k <? 9223372036854775808)%Z = true ->
   lookup q (unpaged lo) g = LOk l ->
   lookup q (with_page lo n (Z.of_nat k)) g = LOk (firstn (Z.to_nat n) (skipn (Z.to_nat n * k) l)).
-Proof. exact page_of_unpaged. Qed.
-Print Assumptions C09_page_block.
+Proof. intros q lo g l n k Hn Hb. apply page_of_unpaged; auto. now apply Z.ltb_lt. Qed.
+Print Assumptions C09_page_block_partial.
 
 (* consecutive pages are disjoint segments and their concatenation is the unpaged result, for every n > 0 and every
-   number of pages K that covers the result *)
-Theorem C09_pages_partition : forall q lo g l (n : Z) (K : nat), (0 < n)%Z ->
+   number of pages K that covers the result (D: n * K < 2^63, which the minimal K satisfies for every real list) *)
+Theorem C09_pages_partition_partial : forall q lo g l (n : Z) (K : nat), (0 < n)%Z ->
+  (n * Z.of_nat K <? 9223372036854775808)%Z = true ->
   lookup q (unpaged lo) g = LOk l -> (length l <= Z.to_nat n * K)%nat ->
   concat (map (fun k => results (lookup q (with_page lo n (Z.of_nat k)) g)) (seq 0 K)) = l.
-Proof. exact pages_partition. Qed.
-Print Assumptions C09_pages_partition.
+Proof. intros q lo g l n K Hn Hb. apply pages_partition; auto. now apply Z.ltb_lt. Qed.
+Print Assumptions C09_pages_partition_partial.
+
+(* outside D: MaxElements = Offset = 2^32. The product 2^64 wraps to 0, so page number 2^32 (far beyond the end of a
+   one-element result) returns that element instead of nothing.  Open finding C09-page-overflow. *)
+Theorem C09_page_overflow_refuted : exists (lo : lopts) (n k : Z) (l : list N),
+  (0 < n)%Z /\ (0 <= k)%Z /\
+  (Z.of_nat (length l) <= n * k)%Z /\              (* block number k lies beyond the end of l: it is empty *)
+  page (with_page lo n k) l <> [].
+Proof.
+  exists default_lo, 4294967296%Z, 4294967296%Z, [7%N]. split; [reflexivity|]. split; [discriminate|].
+  split; [discriminate|]. vm_compute. discriminate.
+Qed.
+Print Assumptions C09_page_overflow_refuted.
 
 (* paging never changes whether the lookup fails *)
 Theorem C09_paged_error_iff : forall q lo g n k e,
@@ -161,7 +181,10 @@ Example C09_nonvacuous : forall g, graph_of (run e_ops) 0 = Some g ->
   lookup QAll (mk 0 None None true (Some (FLatest, FPredicate)) 0) g = LErr ELatestAndFilter /\
   lookup QAll (mk 0 None None false (Some (FLatest, FSubject)) 0) g = LErr EBadField /\
   lookup QAll (mk 3 None None false None 1) g = LOk [RsTriple e4] /\
-  lookup QAll (mk (-1) None None false None (-1)) g = LOk [RsTriple e2; RsTriple e3; RsTriple e4].
+  lookup QAll (mk (-1) None None false None (-1)) g = LOk [RsTriple e2; RsTriple e3; RsTriple e4] /\
+  (* the domain of the _partial theorems is inhabited non-trivially: second page of size 3 *)
+  (3 * Z.of_nat 1 <? 9223372036854775808)%Z = true /\
+  lookup QAll (with_page (mk 0 None None false None 0) 3 (Z.of_nat 1)) g = LOk [RsTriple e4].
 Proof. intros g Hg. vm_compute in Hg. inversion Hg. subst g. vm_compute. repeat split. Qed.
 
 (* the latest filter ranges over a Go map in the code and over a list in the model: the selected set is the same
